@@ -295,6 +295,12 @@ func runC02(r *core.Run) {
 			cases = append(cases, dirCase{Builder: "sharded", Fanout: f, Names: gen.SubsetOf(xu, mask)})
 		}
 	}
+	// a full 64-bit collision: the builder has to refuse the set (whatever the
+	// order), never drop or confuse an entry
+	ca, cb := gen.CollidingPair()
+	for _, f := range fanouts {
+		cases = append(cases, dirCase{Builder: "sharded", Fanout: f, Names: []string{ca, cb}}, dirCase{Builder: "sharded", Fanout: f, Names: []string{cb, "k75", ca}})
+	}
 	r.Set("extreme_universe", xu)
 	cases = append(cases, dirCase{Builder: "threshold-plain"}, dirCase{Builder: "threshold-sharded"})
 	cases = append(cases, dirCase{Builder: "sharded", Fanout: 256, NGen: 2000}, dirCase{Builder: "sharded", Fanout: 8, NGen: 600})
